@@ -402,11 +402,16 @@ def reference_for(obj, c, xs, ys, dofs, r, nl, F):
                 wres = {'tol': {}}
                 for i, nm in enumerate(STRESSES):
                     val = sum(Fl[i, j] * st[k][0] for j, k in enumerate(STRAINS))
-                    tol = sum(abs(Fl[i, j]) * (st[k][1] + 1e-11 * np.abs(st[k][0])) for j, k in enumerate(STRAINS))
+                    # entries of the laminate matrix agree between two correct implementations only to rounding relative
+                    # to sqrt(F_ii*F_jj) (the coupling block of a symmetric laminate is rounding noise, not zero)
+                    tol = sum(abs(Fl[i, j]) * st[k][1] + (1e-11 * abs(Fl[i, j]) + 1e-12 * np.sqrt(abs(Fl[i, i] * Fl[j, j]))) * np.abs(st[k][0])
+                              for j, k in enumerate(STRAINS))
                     res[nm] = (val, tol * 2)
                     if wrong is not None:
                         wres[nm] = sum(Fl[i, j] * (wrong[k] if k in wrong else st[k][0]) for j, k in enumerate(STRAINS))
                         wres['tol'][nm] = 2 * sum(abs(Fl[i, j]) * (wrong['tol'][k] if k in wrong['tol'] else st[k][1])
+                                                  + (1e-11 * abs(Fl[i, j]) + 1e-12 * np.sqrt(abs(Fl[i, i] * Fl[j, j])))
+                                                  * np.abs(wrong[k] if k in wrong else st[k][0])
                                                   for j, k in enumerate(STRAINS))
                 out[('stress', flag)] = res
                 wrongs[('stress', flag)] = wres if wrong is not None else None
